@@ -217,7 +217,7 @@ CHECKS = {
             "branch conditions; on every path the trace of tagged effectful ops must equal the original trace filtered by an "
             "independent classification (data movement iff id==N-1, compute iff id==0, everything else always), order preserved.",
             "programs sampled by VERIF_SEED; K=2 unrolling; the solver's share is small (three classes of core id + control paths); "
-            "function-constant-pinning is upstream code and not claimed.",
+            "the upstream function-constant-pinning pass is run on the single-block programs after dispatching and the pinned module must give the same per-core trace (its own correctness beyond these programs is not claimed).",
             "bounded symbolic execution of before/after IR with a symbolic core id + trace comparison per path", "3/C14"),
 }
 
